@@ -5,6 +5,8 @@ import NavisModel.Proofs.HeapDeepLemmas
 import NavisModel.Model.InputWrites
 import NavisModel.Gen.InputWrites
 import NavisModel.Gen.CopySpec
+import NavisModel.Proofs.HeapParLemmas
+import NavisModel.Gen.ParSpec
 /-!
 # C03 — inputs are never modified unless `inplace=True`; inplace is equivalent
 
@@ -178,6 +180,64 @@ theorem maplist_noswap_loses_identity (b : List Stmt) (s : Store) (l : Ref) (hl 
     (mapListNoSwap b s l true).2 ≠ l := by
   show (mapCalls b s (s.lst l) true).1.lists.length ≠ l
   rw [mapCalls_lists]; exact Nat.ne_of_gt hl
+
+/-! ## 4b. `map_neuronlist(..., parallel=True)`: forced `inplace=True` on the jobs needs every job to run on a pickled copy -/
+
+/-- **forced inplace + per-job copy ⇒ frame.**  A parallel call without `inplace` leaves the old store — the list, its neurons,
+all their tables — unchanged and returns a new list, for every body respecting `writesOwn`, provided the decorator does not force
+`inplace=True` on the jobs, or every job runs in the pool (on a pickled copy of its neuron). -/
+theorem forced_inplace_pooled_frame (b : List Stmt) (s : Store) (l : Ref) (forced pooled : Bool)
+    (hw : writesOwn true b = true) (h : forced = false ∨ pooled = true) :
+    Ext s (mapListPar b s l false true forced pooled).1 ∧ (mapListPar b s l false true forced pooled).2 = s.lists.length := by
+  have hp : (if (true && forced) = true then true else false) = false ∨ (true && pooled) = true := by
+    cases forced <;> cases pooled <;> simp at h ⊢
+  have he := parCalls_ext b hw _ _ hp (s.lst l) s
+  refine ⟨?_, ?_⟩
+  · simp only [mapListPar, Bool.false_eq_true, if_false]
+    exact he.allocLst _
+  · simp only [mapListPar, Bool.false_eq_true, if_false, Store.allocLst]
+    have : ∀ (xs : List Ref) (u : Store) (ip pl : Bool), (parCalls b u xs ip pl).1.lists = u.lists := by
+      intro xs; induction xs with
+      | nil => intro u ip pl; rfl
+      | cons x xs ih =>
+        intro u ip pl
+        show (parCalls b (runJob b u x ip pl).1 xs ip pl).1.lists = u.lists
+        rw [ih]
+        cases pl <;> simp [runJob, call_lists, copyObj_lists]
+    rw [this]
+
+/-- **forced inplace + serial execution ⇒ the input is written** (seeded change C03_5: a "no pool for a single job" fallback
+inside `NeuronProcessor.__call__`).  For a one-neuron list whose member has a node table, the parallel call without `inplace`
+changes the member's node table, is not a frame, and hands back a list holding the member object itself. -/
+theorem forced_inplace_serial_writes_input (s : Store) (l x r : Ref) (hl : s.lst l = [x])
+    (hn : (s.obj x).nodes = some r) (hr : r < s.data.length) :
+    let t := mapListPar [.wr .nodes bump] s l false true true false
+    t.1.rd r = s.rd r + 1 ∧ ¬ Ext s t.1 ∧ t.1.lst t.2 = [x] := by
+  intro t
+  obtain ⟨h1, h2⟩ := runJob_serial_inplace_bump hn hr
+  have ht : t = (runJob [.wr .nodes bump] s x true false).1.allocLst [(runJob [.wr .nodes bump] s x true false).2] := by
+    show mapListPar [.wr .nodes bump] s l false true true false = _
+    simp only [mapListPar, hl, parCalls, Bool.and_self, Bool.and_false, Bool.false_eq_true, if_true, if_false]
+  have ht1 : t.1.rd r = s.rd r + 1 := by rw [ht]; exact h1
+  refine ⟨ht1, ?_, ?_⟩
+  · intro he
+    have := he.rd hr
+    rw [ht1] at this
+    omega
+  · rw [ht, allocLst_snd, lst_allocLst_new, h2]
+
+/-- **The premise, against the source.**  In the current source either `map_neuronlist` does not force `inplace=True` on the jobs
+of a parallel call, or `NeuronProcessor.__call__` runs every job of a parallel call in the pool: `parallel` is not re-assigned
+after it was read, the branch is the bare `if parallel:`, its body maps the jobs through the pool and contains no serial call.
+(`TreeNeuron.__getstate__` drops both graphs: a worker's copy has no view of the caller's graph.) -/
+theorem parallel_premise :
+    (Navis.Gen.ParSpec.forced = false ∨ Navis.Gen.ParSpec.pooled = true) ∧ Navis.Gen.ParSpec.picklingDropsGraphs = true := by
+  decide
+
+/-- Hence a parallel call without `inplace`, as navis is written, leaves the input list and its neurons unchanged. -/
+theorem parallel_frame (b : List Stmt) (s : Store) (l : Ref) (hw : writesOwn true b = true) :
+    Ext s (mapListPar b s l false true Navis.Gen.ParSpec.forced Navis.Gen.ParSpec.pooled).1 :=
+  (forced_inplace_pooled_frame b s l _ _ hw parallel_premise.1).1
 
 /-! ## 5. NeuronList operators -/
 
@@ -483,5 +543,10 @@ example : Navis.HeapDeep.absOf (Navis.HeapDeep.wrInner (Navis.HeapDeep.shallow d
     = [9, 5] ∧ Navis.HeapDeep.absOf d0 2 = [3, 5] := by decide
 example : ("morpho/mmetrics.py:strahler_index", "col", "strahler_index") ∈ Navis.Gen.InputWrites.inputWrites := by decide
 example : Navis.InputWrites.allowed ("morpho/mmetrics.py:strahler_index", "col", "radius") = false := by decide
+
+/-- parallel map: pooled jobs frame, a serial fallback under forced inplace writes the member (seed C03_5) -/
+example : extendsB s0 (mapListPar [.wr .nodes bump] s0 0 false true true true).1 = true := by decide
+example : extendsB s0 (mapListPar [.wr .nodes bump] s0 0 false true true false).1 = false ∧
+    (mapListPar [.wr .nodes bump] s0 0 false true true false).1.lst 1 = [0] := by decide
 
 end Navis.Props.C03
